@@ -2,8 +2,9 @@
 
 Case = {"config": "S"|"U", "total": 1..3, "default": bool, "delays": [cycles...],
         "calls": [{"abandon": bool, "mode": "value"|"raise", "cb": None|"run_sync"|"run", "cc": bool}],
-        "ctl": [["open", i] | ["cancel", i] | ["ncancel", i] | ["entered", i] | ["yield", k]],
-        "callers": [[call indexes issued one after the other by one task] ...]}      (ncancel = Task.cancel() of the caller)
+        "ctl": [["open", i] | ["cancel", i] | ["ncancel", i] | ["entered", i] | ["yield", k] | ["settle", 0]],
+        "callers": [[call indexes issued one after the other by one task] ...],
+        "after": {"i": j}  call i is issued only after call j < i entered its function}      (ncancel = Task.cancel() of the caller)
 """
 from __future__ import annotations
 
@@ -46,6 +47,7 @@ LEVEL_NOTE = "Trusted: harness gates (threading.Event), lock-protected counters,
 DESIGN_REF = "3/C14"
 
 var = contextvars.ContextVar("vf_c14", default=None)
+TRACE = bool(__import__("os").environ.get("VF_TRACE"))
 
 
 class Boom(Exception):
@@ -71,17 +73,19 @@ def _gen(g):
         calls[0]["abandon"] = not native
         calls[0]["shielded"] = False
         ctl = [["entered", 0], ["ncancel" if native else "cancel", 0], ["yield", g.int(1, 3)], ["entered", 1]]
-        rest = [["open", 0], ["yield", g.int(1, 3)], ["entered", 2], ["open", 1], ["open", 2]]
+        rest = [["open", 0], ["settle", 0], ["entered", 2], ["open", 1], ["open", 2]]
         if g.bool():
             rest[0], rest[3] = rest[3], rest[0]
         return {"config": g.choice(["S", "S", "U"]), "total": g.choice([1, 1, 2]), "default": g.chance(25),
                 "delays": [g.int(0, 3) for _ in range(g.int(0, 5))], "calls": calls, "ctl": ctl + rest,
-                "callers": [[0, 1], [2]]}
+                "callers": [[0, 1], [2]], "after": {"2": 1} if g.chance(70) else {}}
     ctl = []
     for _ in range(g.int(2, 3 * n + 2)):
-        k = g.weighted([(40, "open"), (22, "cancel"), (8, "ncancel"), (20, "entered"), (15, "yield")])
+        k = g.weighted([(40, "open"), (22, "cancel"), (8, "ncancel"), (20, "entered"), (12, "yield"), (6, "settle")])
         if k == "yield":
             ctl.append(["yield", g.int(1, 4)])
+        elif k == "settle":
+            ctl.append(["settle", 0])
         else:
             ctl.append([k, g.int(0, n - 1)])
     # calls are issued by 1..n caller tasks, each running its calls one after the other (a caller survives the
@@ -90,8 +94,10 @@ def _gen(g):
     owner = [g.int(0, m - 1) for _ in range(n)]
     callers = [[i for i in range(n) if owner[i] == c] for c in range(m)]
     callers = [c for c in callers if c]
+    after = {str(i): g.int(0, i - 1) for i in range(1, n) if g.chance(20)}
     return {"config": g.choice(["S", "S", "U"]), "total": g.int(1, 3), "default": g.chance(25),
-            "delays": [g.int(0, 3) for _ in range(g.int(0, 5))], "calls": calls, "ctl": ctl, "callers": callers}
+            "delays": [g.int(0, 3) for _ in range(g.int(0, 5))], "calls": calls, "ctl": ctl, "callers": callers,
+            "after": after}
 
 
 _strategy = composite(_gen)
@@ -182,6 +188,19 @@ def run_once(case, out, stats):
             task = tasks[c] = asyncio.current_task()
             for i in callers[c]:
                 spec = case["calls"][i]
+                dep = (case.get("after") or {}).get(str(i))
+                if dep is not None:
+                    # issued only once an earlier-numbered call has entered its function (or ended without entering)
+                    t0 = time.monotonic()
+                    while not st["entered"][dep].is_set() and dep not in outcome:
+                        if time.monotonic() - t0 > 25:
+                            raise Hang()
+                        try:
+                            await anyio.sleep(0.001)
+                        except asyncio.CancelledError:
+                            if c not in native_hit:
+                                raise
+                            task.uncancel()
                 var.set(i)
                 current[c] = i
                 try:
@@ -225,6 +244,10 @@ def run_once(case, out, stats):
         async def controller():
             for step in case["ctl"]:
                 k, a = step
+                if TRACE:
+                    print("ctl", step, "entered", [j for j in range(n) if st["entered"][j].is_set()], "finished",
+                          [j for j in range(n) if st["finished"][j].is_set()], "outcome", sorted(outcome),
+                          "invoked", sorted(invoked), lim.statistics())
                 if k == "yield":
                     for _ in range(a):
                         await anyio.sleep(0)
@@ -245,6 +268,21 @@ def run_once(case, out, stats):
                             with lock:
                                 st["abandoned"].add(a)
                         sc.cancel()
+                elif k == "settle":
+                    # let thread->loop reports arrive, then check the limiter's books: every call in progress either
+                    # holds a token or waits for one (a call spends at most one cycle before it reaches the limiter)
+                    await anyio.sleep(0.02)
+                    for _ in range(2):
+                        inflight = [j for j in invoked if j not in outcome]
+                        stt = lim.statistics()
+                        if len(inflight) <= stt.borrowed_tokens + stt.tasks_waiting:
+                            break
+                        for _ in range(3):
+                            await anyio.sleep(0)
+                    else:
+                        out.bad("token-accounting", "", f"calls in progress {sorted(inflight)} but borrowed_tokens="
+                                                        f"{stt.borrowed_tokens}, tasks_waiting={stt.tasks_waiting}")
+                    stats["settle_checks"] += 1
                 elif k == "ncancel":
                     c = caller_of[a]
                     if current.get(c) == a and a in invoked and a not in outcome and a not in cancel_requested \
@@ -381,7 +419,7 @@ def run_case(case) -> Outcome:
     out = Outcome()
     stats = dict.fromkeys(["cancelled_while_running", "cancelled_before_start", "more_calls_than_tokens",
                            "watchdog_rerun", "native_cancel_while_running", "caller_with_several_calls",
-                           "stall_rerun"], 0)
+                           "stall_rerun", "settle_checks"], 0)
     for attempt in range(3):
         trial = Outcome()
         try:
